@@ -178,6 +178,18 @@ CLAIMED = {
         design_ref="DESIGN.md section 5, C13",
         technique="Coq proof (round trip of the file-content model, rounding half-even to 1e-6) with model/implementation correspondence through an independent tokenizer",
         note=NOTE_COMMON + " Text layout glue is tested, not modelled; elements assigned on reading are C14's subject."),
+    "C18": dict(
+        text="Theorems over the reals (generic in the table, instantiated for the table regenerated on every run by a boolean sweep + reflection): "
+             "bond-order guess, bond length/force constant, angle force constant, torsion case and barrier are identical under reversal of the "
+             "type sequence (incl. undefined/unsupported); every table pair has bond length in [0.39 (ri+rj), ri+rj] and positive force constant "
+             "for bond orders in [1,3]; every table triple has a positive angle force constant (obtuse centres by sign analysis, the acute H_b "
+             "centre by a ratio bound); torsion barriers are non-negative; fourier coefficients are finite when sin(theta0) <> 0 (checked for the "
+             "table). That the CODE computes these formulas is settled per combination: discrete outcomes compared exactly with the computable "
+             "case analysis, magnitudes enclosed within 1e-11 relative by kernel-checked interval arithmetic (quick: stratified samples; "
+             "thorough: all ordered pairs).",
+        design_ref="DESIGN.md section 5, C18",
+        technique="Coq proof over Reals (ring/nra/interval) with reflection on the regenerated table; code-vs-formula tie by per-combination kernel-checked interval enclosures and exact comparison of the case analysis",
+        note=NOTE_COMMON + " Axioms (all from the standard library / Interval's dependencies): Reals (ClassicalDedekindReals.sig_forall_dec, sig_not_dec), Classical_Prop.classic, FunctionalExtensionality.functional_extensionality_dep, Uint63/PrimInt63 primitives used by Interval's software floats (i_prec given, so no PrimFloat axioms)."),
 }
 
 PENDING_REASON = "no check registered yet: the Coq model and correspondence for this property are still being built (see DESIGN.md section 7 work order); nothing is claimed"
